@@ -486,6 +486,8 @@ def b_rise_set(rng, tier, k=0, n=1):
         lon = rng.uniform(-180.0, 180.0)
         hgt = rng.choice((0.0, 0.0, 500.0, 5000.0, rng.uniform(0, 5000)))
         jd = math.floor(J + rng.uniform(-100, 100) * 365.25) + 0.5
+        if i % 2:
+            jd += rng.random()                    # any instant of the date, not only 0h: the result is the one of that date
         e = Epoch(jd)
         ok, det, env = True, None, ""
         h0 = -0.83 - 2.076 * math.sqrt(hgt) / 60.0
@@ -494,7 +496,7 @@ def b_rise_set(rng, tier, k=0, n=1):
         except ValueError as ex:
             # no rising or setting: acceptable exactly when the Sun, from the library's own position, stays on one side of
             # the standard altitude that day (possible inside the polar circles because of the dip of the horizon)
-            noon = Epoch(jd + 0.5 - lon / 360.0)
+            noon = Epoch(math.floor(jd - 0.5) + 1.0 - lon / 360.0)
             alts = [_sun_altitude(Epoch(noon.jde() + q / 48.0), lat, lon)[0] for q in range(-24, 25)]
             if min(alts) > h0 - 0.5 or max(alts) < h0 + 0.5:
                 yield ((round(lat, 3), round(lon, 3), round(hgt, 1), jd, ""), True, None)
